@@ -440,8 +440,11 @@ impl<W: Write> TableWriter<W> {
 		// Update metadata
 		self.update_meta_properties(&key, val);
 
-		// Flush block if it exceeds target size
-		if self.data_block.as_ref().unwrap().size_estimate() > self.opts.block_size {
+		// Flush block if it exceeds target size. An empty block has a size
+		// estimate too (its restart array): with a very small `block_size` it must
+		// not be cut before it holds an entry, there is no last key to separate on.
+		let current = self.data_block.as_ref().unwrap();
+		if current.entries() > 0 && current.size_estimate() > self.opts.block_size {
 			self.write_data_block(&enc_key)?;
 		}
 
